@@ -114,6 +114,39 @@ Theorem C10_read_cif_guarded_strict : forall (O : Type) mv rows (pre post : list
   o_exn (atom_site mv rows) = Some e -> read_cif_guarded mv rows pre post = Err e.
 Proof. exact read_cif_guarded_strict. Qed.
 
+(* several data blocks (fix_c10_f25): blocks without an atom_site category - a ligand dictionary
+   before or after the coordinates - neither abort read_cif nor change its result *)
+Theorem C10_read_cif_blocks_one_site : forall (O : Type) mv (l1 l2 : list (cblock O)) rows pre post,
+  (forall b, In b (l1 ++ l2)%list -> fst b = None) ->
+  read_cif_blocks mv (l1 ++ (Some rows, (pre, post)) :: l2)%list ([], []) = read_cif_guarded mv rows pre post.
+Proof. exact read_cif_blocks_one_site. Qed.
+
+(* FILE LAYER (io.get_molecule): a file whose suffix is .cif in any case goes to the mmCIF reader
+   whatever its text is - in particular with every legal opening (comment / blank preamble, the
+   CIF 1.1 magic line, DATA_ in any case); the harness ties classify_input to the reader the real
+   io.get_molecule calls on every generated file *)
+Theorem C10_file_layer_cif_any_text : forall suffix text,
+  lower_s suffix = ".cif" -> classify_input suffix text = RCif.
+Proof. exact classify_cif_any_text. Qed.
+
+Theorem C10_file_layer_legal_opening : forall suffix text,
+  lower_s suffix = ".cif" -> legal_opening text = true -> classify_input suffix text = RCif.
+Proof. exact classify_legal_opening. Qed.
+
+(* every other suffix (.mmcif, .ent, none) goes to the PDB reader *)
+Theorem C10_file_layer_other_suffix : forall suffix text,
+  lower_s suffix <> ".cif" -> classify_input suffix text = RPdb.
+Proof. exact classify_other_suffix. Qed.
+
+Example C10_file_layer_nonvacuous :
+  lower_s ".CIF" = ".cif" /\ lower_s ".Cif" = ".cif" /\
+  legal_opening ("#\#CIF_1.1" ++ nl ++ "# written by a program" ++ nl ++ nl ++ "  DATA_1ABC" ++ nl ++ "#" ++ nl) = true /\
+  legal_opening ("data_TEST" ++ nl) = true /\
+  legal_opening ("ATOM      1  N   ALA A   1" ++ nl) = false /\
+  classify_input ".CIF" ("#\#CIF_1.1" ++ nl ++ "Data_x" ++ nl) = RCif /\
+  classify_input ".mmcif" ("data_x" ++ nl) = RPdb /\ classify_input ".pdb" ("data_x" ++ nl) = RPdb.
+Proof. exact file_layer_nonvacuous. Qed.
+
 (* non-vacuity and regression: all former refutation witnesses and a row without auth
    names are expressible and agree under both conventions; the formal charge (1+, 2-),
    the author's names (HOH, CA1), the label fallback (CA, LYS) and -100.123 come back *)
@@ -141,4 +174,9 @@ Print Assumptions C10_read_cif_atoms.
 Print Assumptions C10_read_cif_handler_raises.
 Print Assumptions C10_read_cif_guarded_atoms.
 Print Assumptions C10_read_cif_guarded_strict.
+Print Assumptions C10_read_cif_blocks_one_site.
+Print Assumptions C10_file_layer_cif_any_text.
+Print Assumptions C10_file_layer_legal_opening.
+Print Assumptions C10_file_layer_other_suffix.
+Print Assumptions C10_file_layer_nonvacuous.
 Print Assumptions C10_guard_nonvacuous.
